@@ -50,6 +50,50 @@ Proof.
     + rewrite I2. lia.
 Qed.
 
+(* the same over requests as the caller hands them in, including requests the library refuses to serialise (Set Session
+   Privilege Level to Callback): those transmit nothing and take no number, so the numbers the BMC receives are still
+   seq+1, seq+2, ... without a gap: one per transmitted datagram *)
+Fixpoint request_history (s : session) (seq : N) (cmds : list (operation * N * request * list bytes * list (option bytes)))
+  : list bytes * N :=
+  match cmds with
+  | [] => ([], seq)
+  | (o, lun, r, ivs, script) :: rest =>
+      let res := session_send s seq ivs o lun r script in
+      let '(more, final) := request_history s (lr_seq res) rest in
+      (lr_sent res ++ more, final)
+  end.
+Definition total_request_attempts (cmds : list (operation * N * request * list bytes * list (option bytes))) : nat :=
+  fold_right (fun c acc => (length (snd c) + acc)%nat) 0%nat cmds.
+
+Theorem C09_request_history : forall s cmds seq,
+  s_remote_id s < 4294967296 -> seq + N.of_nat (total_request_attempts cmds) < 4294967296 ->
+  let '(sent, final) := request_history s seq cmds in
+  map seq_field sent = count_from (seq + 1) (length sent) /\ final = seq + N.of_nat (length sent) /\
+  Forall (fun dg => id_field dg = s_remote_id s) sent.
+Proof.
+  intros s cmds. induction cmds as [|[[[[o lun] r] ivs] script] rest IH]; intros seq Hid Hb.
+  - simpl. rewrite N.add_0_r. repeat split; auto.
+  - cbn [request_history]. cbn [total_request_attempts fold_right snd] in Hb. fold (total_request_attempts rest) in Hb.
+    destruct (session_send_seq s o lun r script seq ivs Hid ltac:(lia)) as [E2 [E3 [E4 E5]]].
+    specialize (IH (lr_seq (session_send s seq ivs o lun r script)) Hid).
+    rewrite E4 in IH |- *. specialize (IH ltac:(lia)).
+    destruct (request_history s (seq + N.of_nat (length (lr_sent (session_send s seq ivs o lun r script)))) rest) as [more final].
+    destruct IH as [I1 [I2 I3]].
+    rewrite map_app, app_length, count_from_app, E2, I1. split; [|split].
+    + f_equal. f_equal. lia.
+    + rewrite I2. lia.
+    + apply Forall_app. split; assumption.
+Qed.
+
+Theorem C09_refused_request_takes_no_number : forall s o lun r script seq ivs,
+  (forall body, ser_request r [] <> Ok body) ->
+  lr_sent (session_send s seq ivs o lun r script) = [] /\ lr_seq (session_send s seq ivs o lun r script) = seq /\
+  lr_outcome (session_send s seq ivs o lun r script) = OSerialize.
+Proof. exact session_send_refused. Qed.
+(* ... and there is such a request: the premise is not vacuous *)
+Example C09_callback_is_refused : forall body, ser_request (RqSetPriv 1) [] <> Ok body.
+Proof. intros body. vm_compute. discriminate. Qed.
+
 (* datagrams sent outside a session (commands and the three handshake payloads): ID 0, sequence 0 *)
 Theorem C09_sessionless : forall o lun body pkt,
   sessionless_command_packet o lun body = Ok pkt -> id_field pkt = 0 /\ seq_field pkt = 0.
